@@ -7,23 +7,6 @@ From PV Require Import Base.U64 C13.C13_Model C13.C13_Msg C13.C13_Proofs C13.C13
 Import ListNotations.
 Local Open Scope Z_scope.
 
-(* NOT PROVED.  Safety of the chunk reader on arbitrary bytes: with the fuel
-   crs_fuel = |line| + |stream| + 2 (linear in the input) the run never reaches an
-   out-of-range access, whatever the bytes, the fragmentation, the error flag, the reads. *)
-Definition chunked_malformed_safe : Prop :=
-  forall (cap : Z) (partial : bytes) (ps : pieces) (err : bool) (counts : list Z),
-    LINE_BUFFER_SIZE <= cap -> zlen partial <= LINE_BUFFER_SIZE ->
-    Forall (fun c => 0 <= c) counts ->
-    crs_run (crs_init cap partial ps err) counts <> None.
-
-(* NOT PROVED.  Safety of the header parser on arbitrary bytes (responses; for requests
-   see finding F-C13-1): receive_header never reaches an out-of-range access and needs at
-   most |stream| + 2 recv rounds; HeadersBase::parse needs at most capacity/8 + 1 rounds. *)
-Definition parse_malformed_safe : Prop :=
-  forall (cap fill verb : Z) (ps : pieces) (err : bool),
-    0 < cap < 65536 -> 0 <= fill < 256 ->
-    receive_header (rh_fuel ps) (msg_init false cap fill verb) ps err <> None.
-
 (* a well-formed message head: start line and header lines without CR, every header line
    has a colon, terminated by an empty line *)
 Definition no_cr (l : bytes) : Prop := ~ In 13 l.
